@@ -27,6 +27,12 @@ func init() {
 				}
 				return 30000
 			}},
+			{Name: "lattice", NumCases: func(t string) int {
+				if t == "thorough" {
+					return 400000
+				}
+				return 12000
+			}},
 			{Name: "float", NumCases: func(t string) int {
 				if t == "thorough" {
 					return 200000
@@ -43,7 +49,7 @@ func init() {
 		Run: run,
 		Floors: func(t string) map[string]int64 {
 			return map[string]int64{"pt.on_vertex": 1000, "pt.on_closing_segment_of_unclosed_ring": 200, "pt.on_horizontal_edge": 500, "pt.ray_through_vertex": 1000,
-				"pt.inside_two_members": 100, "answer.inside": 1000, "answer.outside": 1000, "answer.onedge": 1000, "recv.outside": 200, "recv.not_outside": 200, "recv.self.outside": 100, "storage.rings_share_one_backing_array": 1000, "recv.self.not_outside": 100, "float.judged": 1000, "float.ray_grazes_one_ulp_edge": 1000, "float.extreme_scale": 300, "float.scaled_to_the_top_of_the_range": 150, "float.figure_around_the_origin": 300, "arg.*Bounds": 100}
+				"pt.inside_two_members": 100, "answer.inside": 1000, "answer.outside": 1000, "answer.onedge": 1000, "recv.outside": 200, "recv.not_outside": 200, "recv.self.outside": 100, "storage.rings_share_one_backing_array": 1000, "recv.self.not_outside": 100, "float.judged": 1000, "float.ray_grazes_one_ulp_edge": 1000, "float.extreme_scale": 300, "lattice.points_in_the_interior_of_an_edge": 20000, "lattice.figures_with_lattice_points_on_edges": 3000, "float.scaled_to_the_top_of_the_range": 150, "float.figure_around_the_origin": 300, "arg.*Bounds": 100}
 		},
 		Exhaustive: func(t string) bool { return false },
 	})
@@ -134,10 +140,105 @@ func run(c *core.Ctx, idx int) {
 	switch c.Phase {
 	case "grid":
 		runGrid(c)
+	case "lattice":
+		runLattice(c)
 	case "float":
 		runFloat(c)
 	case "enumerate":
 		runEnum(c, idx)
+	}
+}
+
+// runLattice is the 'lattice' phase: few-vertex rings on a wide half-integer (or integer) lattice,
+// |ordinate| up to 8 .. 512 units, so that edges have long lattice vectors (dx, dy); the query points
+// are the lattice points in the interior of the edges (all of them up to 40 per edge), the points
+// next to those, the vertices and random lattice points. The arithmetic is still exact.
+func runLattice(c *core.Ctx) {
+	r := c.R
+	unit := []float64{0.5, 1, 1, 0.25}[r.Intn(4)]
+	R := []int{8, 16, 16, 32, 32, 64, 128, 512}[r.Intn(8)]
+	pt := func() geom.Point {
+		return geom.Point{X: float64(r.IntRange(-R, R)) * unit, Y: float64(r.IntRange(-R, R)) * unit}
+	}
+	ring := func() geom.Path {
+		n := r.IntRange(3, 6)
+		o := make(geom.Path, n)
+		for i := range o {
+			o[i] = pt()
+		}
+		if r.Chance(0.4) {
+			o = append(o, o[0])
+		}
+		return o
+	}
+	var polys []geom.Polygon
+	for m := r.IntRange(1, 2); m > 0; m-- {
+		pg := geom.Polygon{}
+		for k := r.IntRange(1, 2); k > 0; k-- {
+			pg = append(pg, ring())
+		}
+		polys = append(polys, pg)
+	}
+	var pgl geom.Polygonal = geom.MultiPolygon(polys)
+	tag := "lattice"
+	if len(polys) == 1 && r.Bool() {
+		pgl = polys[0]
+	}
+	if r.Chance(0.3) {
+		pgl = gen.InArena(pgl.(geom.Geom)).G.(geom.Polygonal)
+		tag += "-shared-storage"
+	}
+	gcd := func(a, b int64) int64 {
+		if a < 0 {
+			a = -a
+		}
+		if b < 0 {
+			b = -b
+		}
+		for b != 0 {
+			a, b = b, a%b
+		}
+		return a
+	}
+	var pts []geom.Point
+	onEdge := 0
+	for _, pg := range polys {
+		for _, rg := range pg {
+			n := len(rg)
+			for i := 0; i < n; i++ {
+				a, b := rg[i], rg[(i+1)%n]
+				pts = append(pts, a)
+				dx, dy := int64(math.Round((b.X-a.X)/unit)), int64(math.Round((b.Y-a.Y)/unit))
+				g := gcd(dx, dy)
+				if g <= 1 {
+					continue
+				}
+				step := int64(1)
+				if g > 40 {
+					step = g / 40
+				}
+				for k := int64(1); k < g; k += step {
+					q := geom.Point{X: a.X + float64(dx/g*k)*unit, Y: a.Y + float64(dy/g*k)*unit}
+					pts = append(pts, q, geom.Point{X: q.X + unit, Y: q.Y}, geom.Point{X: q.X, Y: q.Y - unit})
+					onEdge++
+				}
+			}
+		}
+	}
+	for k := 0; k < 20; k++ {
+		pts = append(pts, pt())
+	}
+	c.Add("lattice.points_in_the_interior_of_an_edge", int64(onEdge))
+	if onEdge > 0 {
+		c.Count("lattice.figures_with_lattice_points_on_edges")
+	}
+	c.Count(fmt.Sprintf("lattice.half_width_%d", R))
+	detail := map[string]interface{}{"polygonal": gen.Dump(pgl), "lattice_unit": unit}
+	nIn, nEdge := judgeAll(c, pgl, polys, pts, detail, tag)
+	if nIn > 0 && nEdge > 0 {
+		h := core.NewHasher()
+		gen.HashGeom(h, pgl)
+		c.Nontrivial(h.Sum())
 	}
 }
 
